@@ -304,6 +304,76 @@ func c04Policy(r *Rng, kind int, ntasks int, totalSteps int64) policy {
 	}
 }
 
+// A target is a location that two tasks touch with at least one write (in correct
+// code such locations exist only under synchronisation): where task A and task B
+// touch it, in their own step counts.
+type c04Target struct {
+	a, b   int
+	sa, sb int64
+}
+
+// c04Targets derives directed-scheduling targets from the access log of a sequential run.
+func c04Targets(log []simrt.AccessRec) []c04Target {
+	type acc struct {
+		task  int
+		step  int64
+		write bool
+	}
+	by := map[uintptr][]acc{}
+	var order []uintptr
+	for _, r := range log {
+		if _, ok := by[r.Addr]; !ok {
+			order = append(order, r.Addr)
+		}
+		if l := by[r.Addr]; len(l) < 64 {
+			by[r.Addr] = append(l, acc{r.Task, r.Step, r.Write})
+		}
+	}
+	var out []c04Target
+	for _, addr := range order {
+		l := by[addr]
+		for i := 0; i < len(l) && len(out) < 256; i++ {
+			for j := i + 1; j < len(l); j++ {
+				if l[i].task != l[j].task && (l[i].write || l[j].write) {
+					out = append(out, c04Target{l[i].task, l[j].task, l[i].step, l[j].step})
+					break
+				}
+			}
+		}
+	}
+	return out
+}
+
+// directed: run A up to (around) its access, then B up to (around) its access, then
+// A to the end, then everything else -- the interleaving that separates a check from
+// the act it guards when both sit in different critical sections.
+func c04Directed(r *Rng, tg c04Target) policy {
+	da, db := int64(r.Range(-2, 2)), int64(r.Range(-2, 2))
+	if r.Chance(0.5) {
+		tg.a, tg.b, tg.sa, tg.sb = tg.b, tg.a, tg.sb, tg.sa
+	}
+	plan := []struct {
+		t int
+		n int64
+	}{{tg.a, tg.sa + da}, {tg.b, tg.sb + db}, {tg.a, 1 << 40}, {tg.b, 1 << 40}}
+	i := 0
+	return policy{fmt.Sprintf("directed(task%d@%d,task%d@%d)", tg.a, tg.sa+da, tg.b, tg.sb+db), func(run []int, last int, _ uint32) (int, int64) {
+		for i < len(plan) {
+			p := plan[i]
+			i++
+			for _, t := range run {
+				if t == p.t {
+					if p.n < 1 {
+						p.n = 1
+					}
+					return t, p.n
+				}
+			}
+		}
+		return run[0], 1 << 40
+	}}
+}
+
 func replayChooser(trace []simrt.Seg) simrt.Chooser {
 	i := 0
 	return func(run []int, last int, _ uint32) (int, int64) {
@@ -547,12 +617,17 @@ func (ck c04) RunCase(c *Ctx, idx int) *CaseOut {
 	}
 	S := c04Schedules(c.Tier)
 	seen := map[string]bool{}
+	var targets []c04Target
 	for s := 0; s < S; s++ {
 		kind := 0
 		if s > 1 {
 			kind = 1 + r.Intn(3)
 		}
 		pol := c04Policy(r.Fork(uint64(1000+s)), kind, len(cs.Tasks), total)
+		if s > 1 && len(targets) > 0 && r.Chance(0.5) {
+			pol = c04Directed(r.Fork(uint64(3000+s)), pick(r, targets))
+		}
+		simrt.LogAccesses = s == 1 // the sequential schedule yields the directed targets
 		var fails []c04Fail
 		var rr simrt.RunResult
 		if s == 0 {
@@ -561,6 +636,11 @@ func (ck c04) RunCase(c *Ctx, idx int) *CaseOut {
 		} else {
 			fails, rr = c04RunSchedule(c, cs, alone, pol, c.Sites)
 		}
+		if s == 1 {
+			targets = c04Targets(rr.Log)
+			c.count("directed_targets", int64(len(targets)))
+		}
+		simrt.LogAccesses = false
 		out.Evals++
 		h, sw := traceHash(rr.Trace)
 		c.logf("schedule %d %s: segs=%d switches=%d steps=%v conflicts=%d fails=%d", s, pol.name, len(rr.Trace), sw, rr.Steps, len(rr.Conflicts), len(fails))
